@@ -1000,6 +1000,14 @@ func (in *Interp) doGC(op Op) error {
 			}
 			fired = true
 			in.St.GCPauseOps++
+			// the rewrite writes large entries back while it is still scanning, i.e. before this
+			// pause: versions that were already shadowed when it started may sit in the memtable now
+			if in.stale == nil {
+				in.stale = map[string]bool{}
+			}
+			for _, c := range cands {
+				in.stale[c] = true
+			}
 			for j := 1; j <= n; j++ {
 				sub := in.P.Ops[base+j]
 				if sub.Kind == "gc" || sub.Kind == "reopen" {
